@@ -42,6 +42,17 @@ GEN1S = """"linalg.generic"({ops}) <{{indexing_maps = [{maps}], iterator_types =
 {ind}}}) {{tag = {t} : i32}} : ({tys}) -> ()"""
 
 
+# the same kernel with its scalar captured by the body instead of passed as an operand
+GEN1C = """"linalg.generic"({buf}, {out}) <{{indexing_maps = [affine_map<(d0) -> (d0)>, affine_map<(d0) -> (d0)>], iterator_types = [#linalg.iterator_type<parallel>], operandSegmentSizes = array<i32: 1, 1>}}> ({{
+{ind}^bb1(%x{t} : i32, %z{t} : i32):
+{ind}  %xc{t} = "arith.extsi"(%x{t}) : (i32) -> i64
+{ind}  %yc{t} = "{k}"({sc}) : ({e}) -> i64
+{ind}  %m{t} = "arith.muli"(%xc{t}, %yc{t}) : (i64, i64) -> i64
+{ind}  %r{t} = "arith.trunci"(%m{t}) : (i64) -> i32
+{ind}  "linalg.yield"(%r{t}) : (i32) -> ()
+{ind}}}) {{tag = {t} : i32}} : ({tys}) -> ()"""
+
+
 class Declined(Exception):
     pass
 
@@ -116,6 +127,9 @@ def handlers(M: Machine):
 
     def h_gen(I, op):
         ins = [I.get(o) for o in op.inputs]
+        # values that the body takes from its surroundings are inputs of the kernel as well
+        inside = {r for o in op.body.walk() for r in o.results} | {a for b in op.body.blocks for a in b.args}
+        ins += [I.get(v) for v in dict.fromkeys(v for o in op.body.walk() for v in o.operands if v not in inside)]
         out = I.get(op.outputs[0])
         t = tag(op)
         f = z3.Function(f"f{t}", *([z3.IntSort()] * (len(ins) + 1)))
@@ -239,6 +253,10 @@ def render(case):
                 # the scalar is a function argument, or (pos ..._i) computed from the loop counter like the tile offsets
                 # (pos ..._d: the loop counter itself, without an index computation in between)
                 sc = ("%i", "index") if pos.endswith("_d") else ("%zi", "i32") if pos.endswith("_i") else ("%zp", "i32")
+                if pos.startswith("cap"):
+                    L.append(P + GEN1C.format(buf=buf, out=out, t=t, ind=P, sc=sc[0], e=sc[1], k="arith.extsi" if sc[1] == "i32" else "arith.index_cast",
+                                              tys=ty(buf) + ", " + ty(out)))
+                    continue
                 ins = [(sc[0], sc[1], "affine_map<(d0) -> ()>", sc[1]), (buf, ty(buf), "affine_map<(d0) -> (d0)>", "i32")]
                 if pos.startswith("last"):
                     ins.reverse()
@@ -479,6 +497,7 @@ def run(chk):
         "feedback3": (3, ("%t0", "%t1"), ((("copy", "%t0", "%sb", next(tag)),), (("gen", "%t1", "%sc", "%t0", next(tag)),), (("gen", "%sa", "%sc", "%t1", next(tag)),))),
         "chain3_index_scalar": (3, ("%t0", "%t1"), ((("copy", "%sa", "%t0", next(tag)),), (("gens", "%t0", "first_i", "%t1", next(tag)),), (("gens", "%t1", "last_i", "%sb", next(tag)),))),
         "chain3_counter_scalar": (3, ("%t0", "%t1"), ((("copy", "%sa", "%t0", next(tag)),), (("gens", "%t0", "first_d", "%t1", next(tag)),), (("gens", "%t1", "last_d", "%sb", next(tag)),))),
+        "chain3_captured_scalar": (3, ("%t0", "%t1"), ((("copy", "%sa", "%t0", next(tag)),), (("gens", "%t0", "cap_i", "%t1", next(tag)),), (("gens", "%t1", "cap_d", "%sb", next(tag)),))),
         "chain4_index_op_between_stages": (4, ("%t0", "%t1", "%t2"), ((("copy", "%sa", "%t0", next(tag)),), (("gen", "%t0", "%sc", "%t1", next(tag)),),
                                                                           (("idxop",), ("gen", "%t1", "%sm", "%t2", next(tag))), (("copy", "%t2", "%sb", next(tag)),))),
         "chain3_index_op_between_stages": (3, ("%t0", "%t1"), ((("copy", "%sa", "%t0", next(tag)),), (("idxop",), ("gen", "%t0", "%sm", "%t1", next(tag))), (("copy", "%t1", "%sb", next(tag)),))),
